@@ -9,6 +9,9 @@ claimed = {
  "C01": dict(sec="7 C01",
    text="Proof (all inputs, all histories via the session-loop invariant) that the SMTP side hands the manager at most one delivery per DATA block, only after a complete block, with exactly the sender and the recipient list accepted since the last MAIL, that RCPT appends exactly the parsed recipient and nothing else changes the envelope, and that every exit of DATA clears the envelope. The fan-out inside StoreManager.Deliver and the stores are covered by their own contracts as they come under contract (see evidence: functions_under_contract).",
    note="assumed: textproto / net.Conn / bytes.Buffer contracts, extension hooks return arbitrary results and do not touch session state, NewSession initial state (trusted), message.Manager.Deliver interface contract (ghost call log)"),
+ "C02": dict(sec="7 C02, 10",
+   text="Proof of the data path link by link, over abstract content values (what a reader yields, what a writer has received, what a file holds; equality and concatenation only): (1) SMTP dataHandler hands Deliver exactly the block ReadDotBytes returned; (2) Deliver hands the store, for every mailbox, a delivery whose reader yields two generated header lines followed by exactly the bytes of that block; (3) a delivery's Source yields what its reader yields; (4) the memory store keeps exactly what the message's Source yielded, the file store's raw file holds exactly that (create, copy, flush, in that order, on the file named by mailbox and id); (5) a stored message's Source yields exactly the stored bytes / the raw file's content; (6) StoreManager.SourceReader returns what the stored message's Source yields; (7) the REST and web-UI source handlers copy exactly that to the response.  Every link is a postcondition proved on the real function for all inputs; the links compose by equality of the content values.  NOT decided: the byte-level behaviour of the libraries the links rest on (textproto dot-unstuffing, io.Copy, bufio, os, net/http: assumed contracts), the POP3 RETR/TOP path (line scanner and dot-stuffing loop), MIME part extraction for the rendered views.",
+   note="assumed: library contracts over content values (bytes.NewReader, strings.NewReader, io.MultiReader, io.NopCloser, io.ReadAll, io.Copy, bufio.Writer, os.Create/Open, Flush), a slice handed to a reader is not modified afterwards, the raw file is written only by AddMessage; POP3 and the MIME views are not covered"),
  "C03": dict(sec="7 C03",
    text="Proof that the command loop preserves the session invariant I_smtp for every command sequence (MAIL only after an accepted greeting, RCPT only in a transaction, DATA only with >= 1 recipient, envelope discarded by RSET / EHLO / end of DATA), that every handler is entered in the state it requires, that Deliver is called only after ReadDotBytes returned without error, and that no index, slice, nil-dereference or type-assertion panic is reachable in handler.go (safe obligations).",
    note="assumed: textproto / net contracts; TLS negotiation and NewSession trusted; reply counting ('exactly one reply') and time-outs are not decided"),
@@ -57,7 +60,6 @@ claimed = {
 }
 
 pending = {
- "C02": "data-path contracts (stores, POP3, HTTP handlers) not built yet; see DESIGN.md section 7",
  "C18": "decided by third-party HTML/CSS parsers (bluemonday, x/net/html, gorilla/css): no contract on inbucket's glue can express 'no active content' without assuming the property (DESIGN.md section 7, C18)",
  "C19": "liveness / schedule property (graceful drain, stop accepting, 'after and only after'): outside what function contracts can decide (DESIGN.md section 7, C19)",
 }
